@@ -511,7 +511,16 @@ fn judge(prog: &Program, ev: &[Ev]) -> Result<String, Vec<String>> {
     if prog.kind == Kind::Cached && qvals.len() > 1 && !stale_reported {
         // Each value is individually a candidate for "last", but there is only one last value:
         // whichever it is, some region serves another one indefinitely.
-        violations.push(format!("ORACLE[quiescent-regions-disagree] after quiescence the regions serve different values: {}", quiescent.join(",")));
+        // Which region is the stale one is known here: the harness saw the order of the stores
+        // to `latest_value`. Classify how that region came to keep its value; everything but
+        // the known initialiser-races-set pattern is a witness class of its own.
+        let last_store: Option<u32> = ev.iter().enumerate().rev().find_map(|(i, e)| match e {
+            Ev::Hook { t, label: "rc.latest.store", .. } => sets.iter().find(|s| s.t == *t && s.start < i && i < s.end).map(|s| s.val),
+            _ => None,
+        });
+        let class = gets.iter().filter(|g| g.t == 0).find(|g| Some(g.val) != last_store).map_or("unclassified", |g| classify_get(g));
+        let key = if class == "init-races-set" { "quiescent-regions-disagree".to_string() } else { format!("quiescent-regions-disagree:{class}") };
+        violations.push(format!("ORACLE[{key}] after quiescence the regions serve different values: {} (the last value stored is {}; {class})", quiescent.join(","), last_store.map_or("?".into(), show)));
     }
     if !violations.is_empty() {
         return Err(violations);
